@@ -131,13 +131,37 @@ func runC05(c *eng.Ctx) {
 
 	// ---- R05.4 recovery exhaustiveness
 	c.Rule("R05.4", "K6")
-	// kinds: suffix constants handed to newSegment
-	suffixes := map[string]string{}
+	// kinds: suffix constants that can reach newSegment's suffix parameter (through helpers), with the call site facts
+	type site struct {
+		pos   string
+		fresh bool // created with isNew = true after removing stale files of that name
+		outer string
+	}
+	suffixes := map[string][]site{}
+	slc := &eng.Slicer{P: p, MaxDepth: 3}
 	for _, s := range eng.Index(p).Sites(cl + "newSegment") {
 		call := s.Instr.(ssa.CallInstruction)
 		a := call.Common().Args
-		if k, ok := constString(a[len(a)-1]); ok && k != "" {
-			suffixes[k] = c.Pos(s.Instr)
+		isNew := false
+		if k, ok := eng.Strip(a[len(a)-2]).(*ssa.Const); ok && k.Value != nil && k.Value.String() == "true" {
+			isNew = true
+		}
+		// isNew=true makes newSegment refuse an existing file, so stale contents can never be appended to; the removal of
+		// leftovers before it (reachable, not necessarily on every CFG path: it sits in a loop over the two file names) lets the retry succeed
+		removed := false
+		for _, rm := range eng.CallsIn(s.Fn, "os.Remove") {
+			q := &eng.PathQuery{Fn: s.Fn, FromAfter: []ssa.Instruction{rm.(ssa.Instruction)}, Target: func(x ssa.Instruction) bool { return x == s.Instr }}
+			if q.Find() != nil {
+				removed = true
+			}
+		}
+		for _, lf := range slc.Leaves(a[len(a)-1]) {
+			if lf.Kind != "const" {
+				continue
+			}
+			if k, ok := constString(lf.V); ok && k != "" {
+				suffixes[k] = append(suffixes[k], site{c.Pos(s.Instr), isNew && removed, s.Outer()})
+			}
 		}
 	}
 	// what the recovery path looks at: string constants in open() and functions it calls before the log is returned
@@ -167,8 +191,20 @@ func runC05(c *eng.Ctx) {
 	}
 	sort.Strings(sfx)
 	for _, s := range sfx {
-		handled := seenConsts[s] || seenConsts[".log"+s] || seenConsts[".index"+s]
-		c.Check(handled, "file kind *"+s+" handled at recovery", suffixes[s], "the recovery scan recognises (loads or removes) it", "segments are created with suffix \""+s+"\" (at "+suffixes[s]+") but the recovery scan in open() never looks for it: files left by a crash mid-clean/truncate are neither loaded nor removed, and the next Cleaned()/Truncated() reopens them with O_APPEND and appends after the stale contents")
+		recognised := seenConsts[s] || seenConsts[".log"+s] || seenConsts[".index"+s]
+		allFresh := true
+		where := ""
+		for _, st := range suffixes[s] {
+			where = st.pos
+			if !st.fresh {
+				allFresh = false
+			}
+		}
+		how := "the recovery scan recognises (loads or removes) it"
+		if !recognised && allFresh {
+			how = "every creation site removes files of that name first and creates the segment as new: leftovers of a crash can never be appended to"
+		}
+		c.Check(recognised || allFresh, "file kind *"+s+" handled at recovery", where, how, "segments are created with suffix \""+s+"\" (at "+where+") but the recovery scan in open() never looks for it and the creation site reopens an existing file (isNew=false, O_APPEND): files left by a crash mid-clean/truncate are neither loaded nor removed, and the next Cleaned()/Truncated() appends after the stale contents")
 	}
 	for _, n := range []string{"replication-offset-checkpoint", "leader-epoch-checkpoint"} {
 		h := seenConsts[n]
